@@ -43,6 +43,22 @@ CHECKS = {
          "hash256().",
          "The frontend lowering and the printer are not modelled in Coq (their output is observed); rewrites come from the generator's "
          "AST; hoisting is sharing of identical sub-validators and has no counterpart in the model."),
+ "C09": ("Theorems on the identifier-assignment model (Model/Names.v = to_valid_ts_identifier, min_file_path_that_differs, "
+         "TypeAddress::ts_identifier): same-named types of different files get distinct identifiers whenever their sanitised "
+         "distinguishing path suffixes differ (all address sets); the unrestricted 'kept apart' clause is refuted with the witness "
+         "a-b.ts / a_b.ts, which reproduces on the implementation (known finding). The splitting clause is decided on the "
+         "implementation: random programs are distributed over 1-3 modules with named/type-only/namespace/renamed imports, export-star "
+         "barrels, default exports of expressions and re-export chains (typeof of constants included) and compared with the "
+         "single-file program on validate() over type-directed values; unresolvable references must produce diagnostics.",
+         "Import/export binding (bind_exports.rs, the module walkers) is not modelled in Coq; .d.ts/.tsx only select parser options "
+         "and import(\"...\") types are not generated; import specifier resolution is the harness rule ./x -> x.ts."),
+ "C10": ("Theorems with an explicit order oracle (any permutation of a HashMap's entries): the emitted sequence of named validators "
+         "(sorted by name, parser_extractor.rs) is independent of the oracle; the first-error rule of typeof-of-a-namespace depends "
+         "on the oracle when two exports fail (refuted, the defect of the pinned tree) and is independent once the entries are visited "
+         "in name order (the repaired code, fix: commit e838263). Tie: a syntactic scan lists every iteration over a HashMap-typed "
+         "binding in beff-core/src and must equal the sites the model accounts for. The property is observed by compiling every "
+         "project several times in fresh processes with shuffled registration order and eager/lazy parsing and comparing bytes.",
+         "Determinism across processes cannot be stated in Gallina without the oracle; the scan is conservative and syntactic."),
  "C11": ("Theorem C11_except_known (for every validator tree and named environment without an intersection of two or more "
          "run-time members, every value and fuel): validate{strict} = validate{default} && no_extra; C11_refuted exhibits the "
          "unchanged code's counterexample (A & B of named objects); C11_strict_implies_default holds for all trees. The model "
